@@ -20,6 +20,8 @@ owner / most recent RDATA name anchor, an explicit hint tested to be below the c
 prior label; HintPointer::new accepts only offsets <= 16383 and is called only with the cursor read BEFORE the name is
 pushed, or with a label position of a prior name; the three anchors are assigned only from what the write_* functions
 return;
+(b') with_rollback restores every Writer field (the three anchors included) that anything reachable from a rolled-back
+closure writes, so no anchor survives the operation that set it when that operation fails;
 (c) no pointer when compression is disabled: every call of write_compressed_unhinted_name and every pointer emission in
 write_hinted_name / write_unhinted_name is dominated by the failed `compression_mode == Disabled` test, and
 write_compressed_unhinted_name has no other caller;
@@ -244,6 +246,9 @@ def check(R, F):
     R.floor('pointer-source', 13)
 
     wc.check_anchor_freshness(R, F)
+    # (b') an operation that fails is rolled back *including the anchors*: an anchor left pointing into the rolled-back
+    # region would later be emitted as a pointer to octets that another record has overwritten (seed C13-e)
+    wc.check_rollback_completeness(R, F, 'rollback')
 
     # ---- (c) disabled mode
     wcu = W + 'write_compressed_unhinted_name'
